@@ -416,6 +416,8 @@ where
     let start = Instant::now();
     let mut watcher = ProgressWatcher::new(progress_tracker, KEYSPACE_SYNC_TIMEOUT);
     let mut interval = interval(Duration::from_millis(250));
+    #[cfg(datacake_verif)]
+    let mut interval = tokio::time::interval(crate::verif::sync_tick());
     loop {
         interval.tick().await;
 
@@ -596,6 +598,23 @@ pub mod verif {
     ) -> Result<(), anyhow::Error> {
         let ctx = context(group, network);
         begin_keyspace_sync(&ctx, keyspace.to_string(), target_node_id, target_addr, removed, modified).await
+    }
+
+    /// The poller's memory of the keyspace stamps it last synchronised with each peer.
+    #[derive(Default)]
+    pub struct Tracker(KeyspaceTracker);
+
+    /// One round of the real poller against the given members with the caller's tracker,
+    /// exactly the body of the poller's loop: keyspaces whose stamp has not changed since
+    /// the last successful sync are skipped.
+    pub async fn repair_round_tracked<S: Storage>(
+        group: &KeyspaceGroup<S>,
+        network: &RpcNetwork,
+        members: &BTreeMap<NodeId, SocketAddr>,
+        tracker: &mut Tracker,
+    ) {
+        let ctx = context(group, network);
+        repair_members(&ctx, members, &mut tracker.0).await;
     }
 
     /// One round of the real poller against the given members (poll keyspace stamps,
